@@ -857,3 +857,76 @@ func gen4(run *vlib.Run, r *vlib.Rand, tier string) {
 		emit(run, dline(make([]byte, l)), "short")
 	}
 }
+
+
+// lk4 ((k g) ...) (r ...): cmap.Format4.Lookup on runes of every kind - in the
+// BMP, supplementary, beyond U+10FFFF, negative - against M_lookup4.
+func init() { handlers["lk4"] = doLk4 }
+
+func doLk4(args []vlib.Sx) (res result, err error) {
+	if len(args) != 2 {
+		return res, fmt.Errorf("lk4: want 2 arguments")
+	}
+	gm, err := parseGmap(args[0])
+	if err != nil {
+		return res, err
+	}
+	m := toFormat4(gm)
+	rs, err := vlib.AsList(args[1])
+	if err != nil {
+		return res, err
+	}
+	out := vlib.List{}
+	for _, x := range rs {
+		r, err := vlib.AsI64(x)
+		if err != nil || r < -0x80000000 || r > 0x7fffffff {
+			return res, fmt.Errorf("lk4: bad rune")
+		}
+		var g glyph.ID
+		if p, msg := guard(func() { g = m.Lookup(rune(r)) }); p {
+			res.impl = "panic"
+			res.fail = "Format4.Lookup panicked: " + msg
+			res.sig = "c09-lookup-panic"
+			return res, nil
+		}
+		out = append(out, vlib.Int(int(g)))
+		// the specification side: the map on 0..0xFFFF, glyph 0 elsewhere
+		want := glyph.ID(0)
+		if r >= 0 && r <= 0xFFFF {
+			want = m[uint16(r)]
+		}
+		if g != want && res.fail == "" {
+			res.fail = fmt.Sprintf("Format4.Lookup(%d) = %d, want %d", r, g, want)
+			res.sig = "c09-lookup-beyond-bmp"
+		}
+	}
+	res.impl = vlib.Str(out)
+	res.nontrivial = len(m) > 0
+	res.labels = append(res.labels, "lk4")
+	return res, nil
+}
+
+func genLk4(run *vlib.Run, r *vlib.Rand, tier string) {
+	n := vlib.Count(tier, 60, 1500)
+	for i := 0; i < n; i++ {
+		m, _ := randomMap(r, 0xFFFF)
+		for len(m) > 40 {
+			for k := range m {
+				delete(m, k)
+				break
+			}
+		}
+		f4 := toFormat4(m)
+		var rs vlib.List
+		add := func(v int64) { rs = append(rs, vlib.I64(v)) }
+		for _, v := range []int64{0, 0x41, 0xFFFF, 0x10000, 0x10041, 0x1FFFF, 0x10FFFF, 0x110000, 0x7FFFFFFF, -1, -0x10000, -0x80000000} {
+			add(v)
+		}
+		for k := range f4 {
+			add(int64(k))
+			add(int64(k) + int64(r.Range(1, 16))<<16)
+			add(int64(k) - 0x10000)
+		}
+		emit(run, vlib.Line(vlib.Atom("lk4"), pairsOf4(f4)[1:], rs), "lk4")
+	}
+}
